@@ -1,5 +1,6 @@
 import DryocVerif.Proofs.Argon2Spec
 import DryocVerif.Proofs.GenArgon2
+import DryocVerif.Proofs.PwhashExtra
 /-
 C09 — Argon2 (`src/argon2.rs`) and `crypto_pwhash` (`src/classic/crypto_pwhash.rs`).
 Property theorems only; helper lemmas live in `DryocVerif/Proofs/Argon2.lean` (the model
@@ -344,6 +345,20 @@ theorem fill_memory_model_eq_spec {ty t m p : Nat} {pwd salt : Bytes} {secret ad
     Proofs.Argon2.argon2HashN_eq_spec pwd salt secret ad outlen hty hv.lanes_ge
       (by have := hv.lanes_le; omega) hm8 (by have := hv.m_le; omega)]
 
+/-- non-vacuity witness: the hypotheses of `fill_memory_model_eq_spec` hold JOINTLY — here for the
+smallest one-lane instance (`p = 1`, `m = 8`; note that `Valid 32 0 8 none none 1 8 4` above is
+*not* such an instance: it violates `hm8`) … -/
+example : (2 = 1 ∨ 2 = 2) ∧ Valid 32 0 8 none none 1 8 1 ∧ 8 * 1 ≤ 8 ∧ 32 < 0xFFFFFFFF
+    ∧ 7 * (8 / (4 * 1)) < 2 ^ 32 + 3 :=
+  ⟨.inr rfl, by constructor <;> simp, by decide, by decide, by decide⟩
+
+/-- … and the theorem instantiated on a non-trivial one: Argon2id, 3 passes, 16 KiB, 2 lanes,
+4-byte password, 8-byte salt, a secret and associated data, 32-byte tag -/
+example :
+    argon2Hash 2 3 16 2 [1, 2, 3, 4] [0, 1, 2, 3, 4, 5, 6, 7] (some [9]) (some [7, 7]) 32
+      = .ok (Spec.Argon2.argon2 2 [1, 2, 3, 4] [0, 1, 2, 3, 4, 5, 6, 7] [9] [7, 7] 3 16 2 32) :=
+  fill_memory_model_eq_spec (.inr rfl) (by constructor <;> simp) (by decide) (by decide) (by decide)
+
 /-- `crypto_pwhash` computes RFC 9106 Argon2i / Argon2id with `t = opslimit`,
 `m = memlimit / 1024` KiB, one lane, no secret, no associated data. -/
 theorem cryptoPwhash_eq_spec {outlen : Nat} {pwd salt : Bytes} {opslimit memlimit alg : Nat}
@@ -356,6 +371,163 @@ theorem cryptoPwhash_eq_spec {outlen : Nat} {pwd salt : Bytes} {opslimit memlimi
     Proofs.Argon2.argon2HashN_eq_spec pwd salt none none outlen halg (by decide) (by decide)
       (by have := hv.mem_ge; omega) (by have := hv.mem_le; omega)]
   rfl
+
+/-- non-vacuity witness for `PwhashValid` and for all hypotheses of `cryptoPwhash_eq_spec` /
+`cryptoPwhash_no_panic` jointly (`OPSLIMIT_MIN`, `MEMLIMIT_MIN`, 4-byte password, 16-byte salt) -/
+example : PwhashValid 32 4 16 1 8192 := by constructor <;> decide
+
+example :
+    cryptoPwhash 32 [1, 2, 3, 4] [0, 1, 2, 3, 4, 5, 6, 7, 8, 9, 10, 11, 12, 13, 14, 15] 1 8192 2
+      = .ok (Spec.Argon2.argon2 2 [1, 2, 3, 4] [0, 1, 2, 3, 4, 5, 6, 7, 8, 9, 10, 11, 12, 13, 14, 15]
+          [] [] 1 (8192 / 1024) 1 32) :=
+  cryptoPwhash_eq_spec (.inr rfl) (by constructor <;> decide) (by decide) (by decide)
+
+/-! ### 8. `crypto_pwhash` is total on the documented domain -/
+
+/-- **`crypto_pwhash` never panics** for an algorithm in {Argon2i13, Argon2id13}, an output buffer
+shorter than `u32::MAX` and `memlimit` below ≈ 2.28 TiB (`h7`) — whatever the password, salt and
+limits are: this combines `cryptoPwhash_validate_iff` (rejections are `Err`) with
+`argon2Hash_no_panic` (accepted calls run to `Ok`).  The two bounds are necessary
+(`longhash_panics_at_max_outlen`, `index_alpha_overflow_witness`), and so is the algorithm
+(`cryptoPwhash_panics_on_unknown_alg`). -/
+theorem cryptoPwhash_never_panics {outlen : Nat} {pwd salt : Bytes} {opslimit memlimit alg : Nat}
+    (halg : alg = 1 ∨ alg = 2) (hout : outlen < 0xFFFFFFFF)
+    (h7 : 7 * (memlimit / 1024 / 4) < 2 ^ 32 + 3) :
+    cryptoPwhash outlen pwd salt opslimit memlimit alg ≠ .panic :=
+  Proofs.PwhashExtra.cryptoPwhash_ne_panic halg hout h7
+
+/-- … in full: on that domain `crypto_pwhash` is the total function "RFC 9106 tag on
+`PwhashValid`, `Err` off it". -/
+theorem cryptoPwhash_total {outlen : Nat} {pwd salt : Bytes} {opslimit memlimit alg : Nat}
+    (halg : alg = 1 ∨ alg = 2) (hout : outlen < 0xFFFFFFFF)
+    (h7 : 7 * (memlimit / 1024 / 4) < 2 ^ 32 + 3) :
+    (PwhashValid outlen pwd.length salt.length opslimit memlimit ∧
+      cryptoPwhash outlen pwd salt opslimit memlimit alg
+        = .ok (Spec.Argon2.argon2 alg pwd salt [] [] opslimit (memlimit / 1024) 1 outlen)) ∨
+    (¬ PwhashValid outlen pwd.length salt.length opslimit memlimit ∧
+      cryptoPwhash outlen pwd salt opslimit memlimit alg = .err) :=
+  Proofs.PwhashExtra.cryptoPwhash_total halg hout h7
+
+/-- non-vacuity witness: the domain of the two theorems above contains both valid and invalid
+calls (the side conditions do not mention `opslimit`, the password or the salt) -/
+example : (2 = 1 ∨ 2 = 2) ∧ 32 < 0xFFFFFFFF ∧ 7 * (8192 / 1024 / 4) < 2 ^ 32 + 3
+    ∧ PwhashValid 32 4 16 1 8192 ∧ ¬ PwhashValid 32 4 16 0 8192 :=
+  ⟨.inr rfl, by decide, by decide, by constructor <;> decide, fun h => absurd h.ops_ge (by decide)⟩
+
+/-- converse witness for `halg`: `PasswordHashAlgorithm::from(u32)` panics on anything but 1 and 2
+(before any check) -/
+theorem cryptoPwhash_panics_on_unknown_alg (outlen : Nat) (pwd salt : Bytes) (opslimit memlimit alg : Nat)
+    (halg : alg ≠ 1 ∧ alg ≠ 2) : cryptoPwhash outlen pwd salt opslimit memlimit alg = .panic :=
+  Proofs.Argon2.cryptoPwhash_alg_panic outlen pwd salt opslimit memlimit alg halg
+
+/-- whenever `argon2_hash` returns `Ok` — no side condition — the parameters had passed
+`Argon2Context::new` and exactly `outlen` bytes were produced -/
+theorem argon2Hash_ok_inv {ty t m p : Nat} {pwd salt : Bytes} {secret ad : Option Bytes} {outlen : Nat}
+    {h : Bytes} (e : argon2Hash ty t m p pwd salt secret ad outlen = .ok h) :
+    Valid outlen pwd.length salt.length (secret.map List.length) (ad.map List.length) t m p
+      ∧ h.length = outlen :=
+  Proofs.PwhashExtra.argon2Hash_ok_inv e
+
+/-- the RFC function returns exactly `outlen` bytes -/
+theorem spec_argon2_length (ty : Nat) (pwd salt secret ad : Bytes) (t m p outlen : Nat) :
+    (Spec.Argon2.argon2 ty pwd salt secret ad t m p outlen).length = outlen :=
+  Proofs.PwhashExtra.spec_argon2_length ty pwd salt secret ad t m p outlen
+
+/-! ### 9. The object API: `PwHash::verify` (`src/pwhash.rs`)
+
+`objVerify hash salt hashLength opslimit memlimit alg pwd` models `self.verify(pwd)` for
+`self = PwHash { hash, salt, config: Config { hash_length, opslimit, memlimit, algorithm, .. } }`:
+`hash_with_salt` recomputes `crypto_pwhash` into a buffer of `config.hash_length` bytes with the
+stored salt and the config's limits, then the two hashes are compared with `ct_eq`.
+(The buffer length is `config.hash_length`, which equals `hash.len()` for every `PwHash` made by
+`hash`, `hash_with_salt` or `from_string`; `from_parts` can make them differ, see
+`objVerify_len_mismatch`.) -/
+
+/-- **`verify` says `Ok` exactly when `crypto_pwhash` on the candidate reproduces the stored hash**
+— no hypotheses. -/
+theorem objVerify_iff (hash salt : Bytes) (hashLength opslimit memlimit alg : Nat) (pwd' : Bytes) :
+    objVerify hash salt hashLength opslimit memlimit alg pwd' = .ok () ↔
+      cryptoPwhash hashLength pwd' salt opslimit memlimit alg = .ok hash :=
+  Proofs.PwhashExtra.objVerify_iff hash salt hashLength opslimit memlimit alg pwd'
+
+/-- the form with the stored hash's length, as for every `PwHash` not made by `from_parts` -/
+theorem objVerify_iff_len (hash salt : Bytes) (opslimit memlimit alg : Nat) (pwd' : Bytes) :
+    objVerify hash salt hash.length opslimit memlimit alg pwd' = .ok () ↔
+      cryptoPwhash hash.length pwd' salt opslimit memlimit alg = .ok hash :=
+  Proofs.PwhashExtra.objVerify_iff hash salt hash.length opslimit memlimit alg pwd'
+
+/-- `verify` errs exactly when `crypto_pwhash` errs or returns something else, and panics exactly
+when `crypto_pwhash` panics -/
+theorem objVerify_err_iff (hash salt : Bytes) (hashLength opslimit memlimit alg : Nat) (pwd' : Bytes) :
+    objVerify hash salt hashLength opslimit memlimit alg pwd' = .err ↔
+      cryptoPwhash hashLength pwd' salt opslimit memlimit alg = .err ∨
+      ∃ c, cryptoPwhash hashLength pwd' salt opslimit memlimit alg = .ok c ∧ c ≠ hash :=
+  Proofs.PwhashExtra.objVerify_err_iff hash salt hashLength opslimit memlimit alg pwd'
+
+theorem objVerify_panic_iff (hash salt : Bytes) (hashLength opslimit memlimit alg : Nat) (pwd' : Bytes) :
+    objVerify hash salt hashLength opslimit memlimit alg pwd' = .panic ↔
+      cryptoPwhash hashLength pwd' salt opslimit memlimit alg = .panic :=
+  Proofs.PwhashExtra.objVerify_panic_iff hash salt hashLength opslimit memlimit alg pwd'
+
+/-- **In RFC terms** (composition with `cryptoPwhash_eq_spec`): on the documented domain `verify`
+says `Ok` iff the candidate passes `crypto_pwhash`'s validation and its Argon2 tag IS the stored
+hash.  So "accepts the password that produced the hash and rejects every other value" holds
+exactly up to Argon2 collisions — nothing else is accepted, nothing that matches is rejected. -/
+theorem objVerify_iff_spec {hash salt : Bytes} {hashLength opslimit memlimit alg : Nat} {pwd' : Bytes}
+    (halg : alg = 1 ∨ alg = 2) (hout : hashLength < 0xFFFFFFFF)
+    (h7 : 7 * (memlimit / 1024 / 4) < 2 ^ 32 + 3) :
+    objVerify hash salt hashLength opslimit memlimit alg pwd' = .ok () ↔
+      PwhashValid hashLength pwd'.length salt.length opslimit memlimit ∧
+      Spec.Argon2.argon2 alg pwd' salt [] [] opslimit (memlimit / 1024) 1 hashLength = hash :=
+  Proofs.PwhashExtra.objVerify_iff_spec halg hout h7
+
+/-- … and `Err` otherwise: on that domain `verify` never panics -/
+theorem objVerify_total {hash salt : Bytes} {hashLength opslimit memlimit alg : Nat} {pwd' : Bytes}
+    (halg : alg = 1 ∨ alg = 2) (hout : hashLength < 0xFFFFFFFF)
+    (h7 : 7 * (memlimit / 1024 / 4) < 2 ^ 32 + 3) :
+    ((PwhashValid hashLength pwd'.length salt.length opslimit memlimit ∧
+        Spec.Argon2.argon2 alg pwd' salt [] [] opslimit (memlimit / 1024) 1 hashLength = hash) ∧
+      objVerify hash salt hashLength opslimit memlimit alg pwd' = .ok ()) ∨
+    (¬ (PwhashValid hashLength pwd'.length salt.length opslimit memlimit ∧
+        Spec.Argon2.argon2 alg pwd' salt [] [] opslimit (memlimit / 1024) 1 hashLength = hash) ∧
+      objVerify hash salt hashLength opslimit memlimit alg pwd' = .err) :=
+  Proofs.PwhashExtra.objVerify_total halg hout h7
+
+/-- **hash-then-verify.**  For a `PwHash` made by `hash_with_salt(pwd, salt, config)` (hence also
+by `hash`, whose salt is random): `verify(pwd')` says `Ok` iff `pwd'` is within Argon2's length
+limit and has the same Argon2 tag as `pwd` — in particular `verify(pwd)` is `Ok`, and a `pwd'`
+that is accepted without being `pwd` is an Argon2 collision. -/
+theorem objVerify_of_hashed {hash salt : Bytes} {hashLength opslimit memlimit alg : Nat} {pwd : Bytes}
+    (halg : alg = 1 ∨ alg = 2) (hout : hashLength < 0xFFFFFFFF)
+    (h7 : 7 * (memlimit / 1024 / 4) < 2 ^ 32 + 3)
+    (hmade : objHashWithSalt hashLength salt opslimit memlimit alg pwd = .ok hash) (pwd' : Bytes) :
+    objVerify hash salt hashLength opslimit memlimit alg pwd' = .ok () ↔
+      pwd'.length ≤ 0xFFFFFFFF ∧
+      Spec.Argon2.argon2 alg pwd' salt [] [] opslimit (memlimit / 1024) 1 hashLength
+        = Spec.Argon2.argon2 alg pwd salt [] [] opslimit (memlimit / 1024) 1 hashLength :=
+  Proofs.PwhashExtra.objVerify_of_hashed halg hout h7 hmade pwd'
+
+/-- the password that was hashed verifies — with no side condition at all -/
+theorem objVerify_accepts_own {hash salt : Bytes} {hashLength opslimit memlimit alg : Nat} {pwd : Bytes}
+    (hmade : objHashWithSalt hashLength salt opslimit memlimit alg pwd = .ok hash) :
+    objVerify hash salt hashLength opslimit memlimit alg pwd = .ok () :=
+  (Proofs.PwhashExtra.objVerify_iff ..).2 hmade
+
+/-- **Observation.**  `verify` recomputes `config.hash_length` bytes, not `hash.len()`: a `PwHash`
+assembled with `from_parts` from a hash of another length verifies no password at all. -/
+theorem objVerify_len_mismatch {hash salt : Bytes} {hashLength opslimit memlimit alg : Nat} {pwd' : Bytes}
+    (halg : alg = 1 ∨ alg = 2) (hout : hashLength < 0xFFFFFFFF)
+    (h7 : 7 * (memlimit / 1024 / 4) < 2 ^ 32 + 3) (hne : hashLength ≠ hash.length) :
+    objVerify hash salt hashLength opslimit memlimit alg pwd' = .err :=
+  Proofs.PwhashExtra.objVerify_len_mismatch halg hout h7 hne
+
+/-- non-vacuity witness for `objVerify_of_hashed` / `objVerify_accepts_own`: `hmade` is satisfiable
+on the documented domain (`cryptoPwhash_eq_spec` produces the hash), e.g. at `OPSLIMIT_MIN`,
+`MEMLIMIT_MIN`, a 16-byte salt and a 64-byte hash -/
+example : ∃ hash, objHashWithSalt 64 [0, 1, 2, 3, 4, 5, 6, 7, 8, 9, 10, 11, 12, 13, 14, 15] 1 8192 2
+    [1, 2, 3, 4] = .ok hash ∧ hash.length = 64 :=
+  ⟨_, cryptoPwhash_eq_spec (.inr rfl) (by constructor <;> decide) (by decide) (by decide),
+    Proofs.PwhashExtra.spec_argon2_length ..⟩
 
 /-- the first blocks, one pass, and the final block separately (components of the theorem above) -/
 theorem fill_block_eq_G (prev ref next : Block) (withXor : Bool) :
